@@ -21,9 +21,18 @@ class CoqError(Exception):
 
 
 def rundir(prop):
-    d = os.path.join(env.BUILD, "run", prop)
-    shutil.rmtree(d, ignore_errors=True)
-    os.makedirs(d)
+    """A scratch directory for this process (concurrent runs of the same check do not disturb each
+    other); directories left by processes that no longer exist are removed."""
+    base = os.path.join(env.BUILD, "run")
+    os.makedirs(base, exist_ok=True)
+    for name in os.listdir(base):
+        if name == prop or name.startswith(prop + "."):
+            pid = name.rsplit(".", 1)[-1]
+            if pid.isdigit() and os.path.exists("/proc/%s" % pid) and int(pid) != os.getpid():
+                continue
+            shutil.rmtree(os.path.join(base, name), ignore_errors=True)
+    d = os.path.join(base, "%s.%d" % (prop, os.getpid()))
+    os.makedirs(d, exist_ok=True)
     return d
 
 
